@@ -447,7 +447,46 @@ func checkLeave(c *Ctx, res *report.Result) {
 	}
 }
 
+// checkStreamSendFaithful: the stream-level senders of the intra-proxy path return nil only after the gRPC stream's
+// Send returned nil; every other outcome of Send (io.EOF included: the peer has closed the stream, nothing was
+// delivered) is returned as an error.
+func checkStreamSendFaithful(c *Ctx, res *report.Result, rule string) {
+	for _, a := range []anchor{{"proxy", "*intraProxyStreamReceiver", "sendAck"}, {"proxy", "*intraProxyStreamSender", "sendReplicationMessages"}} {
+		f := resolve(c, res, rule, a)
+		if f == nil {
+			continue
+		}
+		var send *ssa.Call
+		for _, call := range flow.Calls(f) {
+			if cv, ok := call.(*ssa.Call); ok && cv.Call.IsInvoke() && cv.Call.Method.Name() == "Send" {
+				send = cv
+			}
+		}
+		if send == nil {
+			res.Viol(rule, shortFn(f)+": stream Send", fnPos(c.Prog, f), "the function never sends on its stream")
+			continue
+		}
+		bad := ""
+		n := 0
+		for _, b := range f.Blocks {
+			if b == f.Recover || len(b.Instrs) == 0 {
+				continue
+			}
+			ret, ok := b.Instrs[len(b.Instrs)-1].(*ssa.Return)
+			if !ok || len(ret.Results) != 1 || !flow.IsNilConst(flow.Ret(ret)[0]) {
+				continue
+			}
+			n++
+			if !guardedErrNil(b, send) || !flow.InstrDominates(send, ret) {
+				bad = instrPos(c.Prog, ret)
+			}
+		}
+		res.Check(bad == "" && n > 0, rule, shortFn(f)+": nil only after the stream's Send returned nil", instrPos(c.Prog, send), "every nil return is on the err == nil side of Send", "nil is returned at "+bad+" although Send did not succeed (e.g. on io.EOF - the peer has already closed the stream): the shard manager reports the message or acknowledgement as delivered and nobody retries it")
+	}
+}
+
 func checkIntraSenders(c *Ctx, res *report.Result, rule string) {
+	checkStreamSendFaithful(c, res, rule)
 	for _, spec := range []struct{ name, inner string }{{"sendReplicationMessages", "sendReplicationMessages"}, {"sendAck", "sendAck"}} {
 		f := resolve(c, res, rule, anchor{"proxy", "*intraProxyManager", spec.name})
 		if f == nil {
